@@ -59,6 +59,16 @@ for f in ("patch.diff", "demo.rs"):
 shutil.rmtree(os.path.join(dst, "demo"), ignore_errors=True)
 shutil.copytree(demo, os.path.join(dst, "demo"), ignore=shutil.ignore_patterns("target"))
 meta = json.load(open(os.path.join(src, "meta.json")))
+# keep the history of earlier evaluations (a change that escaped first and is caught after a check was strengthened)
+old = os.path.join(dst, "meta.json")
+hist = []
+if os.path.exists(old):
+    try:
+        o = json.load(open(old))
+        hist = o.get("history", []) + [{"at": o["verification"].get("confirmed_at"), "checks": {c: r["exit"] for c, r in o["verification"]["checks"].items()}}]
+    except Exception:
+        pass
+meta["history"] = hist
 meta["verification"] = res
 meta["detected_by"] = [c for c in checks if res["checks"][c]["exit"] == 1]
 json.dump(meta, open(os.path.join(dst, "meta.json"), "w"), indent=1)
